@@ -1,15 +1,361 @@
 /-
-  HotXL.Model.Fn.Text — builtin functions of this family (filled in as the family is modelled).
-  `table` maps a registered function name to its model; a registered name with no entry
-  here is reported by the evaluator as `Value.other "unmodelled-builtin"`.
+  HotXL.Model.Fn.Text — model of hotxlfp/formulas/text.py (every function except TEXT(), whose
+  number/date formatting is out of scope: TEXT has no entry in `table`, so the evaluator reports
+  it as `unmodelled-builtin`).
+
+  Text is `List Char` (Unicode scalar values).  Python strings may also contain lone surrogates
+  (`chr(0xD800)`..`chr(0xDFFF)`), which are not Lean `Char`s: `CHAR` answers `.other` for them
+  (no opinion) and the generators never produce them.
+
+  Case mapping (`str.upper` / `str.lower` / `str.title`) is a table of the Unicode library, not of
+  hotxlfp: the model is parametric in a `CaseMap`; the registered builtins use the ASCII instance,
+  which has an opinion on ASCII text only (`covers`), anything else is `.other`.
 -/
 import HotXL.Model.Fn.Common
 
 namespace HotXL.Fn.Text
-open HotXL
+open HotXL HotXL.Ops HotXL.Fn
 
-open HotXL.Fn
+/-! ### Python slicing, `len`, `str()` -/
 
-def table : List (String × Builtin) := []
+/-- `text[:n]` for any integer `n` (a negative `n` counts from the end) -/
+def sliceTo (s : List Char) (n : Int) : List Char :=
+  if 0 ≤ n then s.take n.toNat else s.take (s.length - n.natAbs)
+
+/-- `text[n:]` for any integer `n` (a negative `n` counts from the end) -/
+def sliceFrom (s : List Char) (n : Int) : List Char :=
+  if 0 ≤ n then s.drop n.toNat else s.drop (s.length - n.natAbs)
+
+/-- marker value: the function was applied to something whose Python text / behaviour is library
+    matter (repr of a float, a date, a list; a foreign host object) — the model has no opinion -/
+def noOpinion : Value := .other "text-of-float-date-or-list"
+
+/-- `text` after the common prologue `None → ''`, non-string → `str(text)`;
+    `none` = not modelled (`pyStr?`: floats, dates, lists, foreign objects) -/
+def textOf? (v : Value) : Option (List Char) := pyStr? v
+
+/-! ### counts: `num_chars < 0`, slicing with it -/
+
+/-- how Python sees a count argument: an `int` (bool included), a `float`, or an object on which
+    `x < 0` raises TypeError (text, None, error objects, dates, lists) -/
+inductive Count where
+  | int (i : Int)
+  | flt (q : Rat)
+  | bad
+  deriving Repr
+
+def countOf : Value → Count
+  | .num (.int i) => .int i
+  | .num (.flt q) => .flt q
+  | .bool b => .int (if b then 1 else 0)
+  | _ => .bad
+
+/-- Python `count < k` for an integer constant `k` (never evaluated on `.bad`) -/
+def Count.lt (c : Count) (k : Int) : Bool :=
+  match c with
+  | .int i => i < k
+  | .flt q => q < (k : Rat)
+  | .bad => false
+
+/-! ### CHAR, CODE -/
+
+/-- is `n` a Unicode scalar value (a code point that is not a surrogate)? -/
+def isScalar (n : Int) : Bool := (0 ≤ n && n < 0xD800) || (0xDFFF < n && n ≤ 0x10FFFF)
+
+/-- CHAR(number): `chr(parse_number(number))`; `chr` of a float raises TypeError, outside
+    0..0x10FFFF ValueError/OverflowError (→ #ERROR!) -/
+def CHAR : Builtin
+  | [v] =>
+    match parseNumber v with
+    | .error e => .ok (.err e)
+    | .ok (.flt _) => .error .error
+    | .ok (.int n) =>
+      if isScalar n then .ok (.str [Char.ofNat n.toNat])
+      else if 0 ≤ n && n ≤ 0x10FFFF then .ok (.other "surrogate-code-point")
+      else .error .error
+  | _ => .error .error
+
+/-- CODE(char): `ord(char)` — TypeError unless the argument is a string of length one -/
+def CODE : Builtin
+  | [.str [c]] => .ok (.num (.int c.toNat))
+  | [.other _] => .ok noOpinion
+  | _ => .error .error
+
+/-! ### CLEAN, LEN, UPPER, LOWER, PROPER -/
+
+/-- `''.join(c for c in text if ord(c) > 31)` -/
+def clean (s : List Char) : List Char := s.filter (fun c => 31 < c.toNat)
+
+/-- the shared prologue of CLEAN/LEN/LOWER/UPPER/PROPER: error returned, None as `''`
+    (LEN: 0, the same thing), other values through `str()` -/
+def onText (f : List Char → Value) : Builtin
+  | [.err e] => .ok (.err e)
+  | [v] => match textOf? v with
+    | some s => .ok (f s)
+    | none => .ok noOpinion
+  | _ => .error .error
+
+def CLEAN : Builtin := onText (fun s => .str (clean s))
+
+def LEN : Builtin := onText (fun s => .num (.int s.length))
+
+/-- the three case mappings of Python's `str`, and the set of texts on which this table claims to
+    describe them -/
+structure CaseMap where
+  upper : List Char → List Char
+  lower : List Char → List Char
+  title : List Char → List Char
+  covers : List Char → Bool
+
+def isAsciiLower (c : Char) : Bool := 97 ≤ c.toNat && c.toNat ≤ 122
+def isAsciiUpper (c : Char) : Bool := 65 ≤ c.toNat && c.toNat ≤ 90
+def isAsciiLetter (c : Char) : Bool := isAsciiLower c || isAsciiUpper c
+
+def upperChar (c : Char) : Char := if isAsciiLower c then Char.ofNat (c.toNat - 32) else c
+def lowerChar (c : Char) : Char := if isAsciiUpper c then Char.ofNat (c.toNat + 32) else c
+
+/-- `str.title()` (CPython `do_title`): a character is title-cased when the previous character
+    is not cased, lower-cased otherwise.  Among ASCII characters exactly the letters are cased, so
+    digits, apostrophes, underscores … all start a new word: "it's" → "It'S", "a1b" → "A1B". -/
+def titleGo (prevCased : Bool) : List Char → List Char
+  | [] => []
+  | c :: r => (if prevCased then lowerChar c else upperChar c) :: titleGo (isAsciiLetter c) r
+
+/-- the ASCII part of Python's case mappings -/
+def CaseMap.ascii : CaseMap where
+  upper := fun s => s.map upperChar
+  lower := fun s => s.map lowerChar
+  title := titleGo false
+  covers := fun s => s.all (fun c => c.toNat < 128)
+
+def caseFn (cm : CaseMap) (f : List Char → List Char) : Builtin :=
+  onText (fun s => if cm.covers s then .str (f s) else .other "case-mapping-outside-table")
+
+def UPPERwith (cm : CaseMap) : Builtin := caseFn cm cm.upper
+def LOWERwith (cm : CaseMap) : Builtin := caseFn cm cm.lower
+def PROPERwith (cm : CaseMap) : Builtin := caseFn cm cm.title
+
+def UPPER : Builtin := UPPERwith CaseMap.ascii
+def LOWER : Builtin := LOWERwith CaseMap.ascii
+def PROPER : Builtin := PROPERwith CaseMap.ascii
+
+/-! ### CONCATENATE, TEXTJOIN -/
+
+/-- CONCATENATE over the flattened items: `None` skipped, an error item is raised (and returned),
+    text as it is, anything else through `str()`.  `none` inside = an item whose `str()` is not
+    modelled. -/
+def concatGo : List Value → Except Err (Option (List Char))
+  | [] => .ok (some [])
+  | .blank :: rest => concatGo rest
+  | .err e :: _ => .error e
+  | v :: rest =>
+    match concatGo rest with
+    | .error e => .error e
+    | .ok r => .ok (match textOf? v, r with
+      | some a, some b => some (a ++ b)
+      | _, _ => none)
+
+def CONCATENATE : Builtin := fun args =>
+  match concatGo (flattenList args) with
+  | .error e => .ok (.err e)
+  | .ok (some s) => .ok (.str s)
+  | .ok none => .ok noOpinion
+
+/-- `delimiter.join(items)` -/
+def pyJoin (d : List Char) : List (List Char) → List Char
+  | [] => []
+  | [x] => x
+  | x :: y :: rest => x ++ d ++ pyJoin d (y :: rest)
+
+/-- the generator handed to `join`: `none` = an item that is not a string (TypeError in `join`) -/
+def joinItems (ignoreEmpty : Bool) : List Value → Option (List (List Char))
+  | [] => some []
+  | .blank :: rest => if ignoreEmpty then joinItems ignoreEmpty rest else (joinItems ignoreEmpty rest).map ([] :: ·)
+  | .str s :: rest => (joinItems ignoreEmpty rest).map (s :: ·)
+  | _ :: _ => none
+
+/-- TEXTJOIN(delimiter, ignore_empty, *args): items are NOT converted to text — a number (or an
+    error value) among them makes `str.join` raise TypeError -/
+def TEXTJOIN : Builtin
+  | .str d :: ig :: args =>
+    match joinItems (pyTruthy ig) (flattenList args) with
+    | some xs => .ok (.str (pyJoin d xs))
+    | none => .error .error
+  | _ :: _ :: _ => .ok (.err .value)
+  | _ => .error .error
+
+/-! ### LEFT, RIGHT, MID -/
+
+def leftCore (t n : Value) : Except Err Value :=
+  match countOf n with
+  | .bad => .error .error                      -- `num_chars < 0` raises TypeError
+  | .int i =>
+    if i < 0 then .ok (.err .value) else
+    match t with
+    | .str s => .ok (.str (sliceTo s i))
+    | _ => .ok (.err .value)
+  | .flt q =>
+    if q < 0 then .ok (.err .value) else
+    match t with
+    | .str _ => .error .error                  -- slice indices must be integers
+    | _ => .ok (.err .value)
+
+/-- LEFT(text, num_chars=1) -/
+def LEFT : Builtin
+  | [t] => leftCore t (.num (.int 1))
+  | [t, n] => leftCore t n
+  | _ => .error .error
+
+def rightCore (t n : Value) : Except Err Value :=
+  match countOf n with
+  | .bad => .error .error
+  | .int i =>
+    if i < 0 then .ok (.err .value) else
+    match t with
+    | .str s => .ok (.str (sliceFrom s (max ((s.length : Int) - i) 0)))
+    | _ => .ok (.err .value)
+  | .flt q =>
+    if q < 0 then .ok (.err .value) else
+    match t with
+    | .str s =>
+      -- `max(len - q, 0)` is the int 0 when `len - q < 0`, otherwise the float `len - q`
+      if ((s.length : Int) : Rat) - q < 0 then .ok (.str s) else .error .error
+    | _ => .ok (.err .value)
+
+/-- RIGHT(text, num_chars=1) -/
+def RIGHT : Builtin
+  | [t] => rightCore t (.num (.int 1))
+  | [t, n] => rightCore t n
+  | _ => .error .error
+
+def midCore (t st n : Value) : Except Err Value :=
+  match countOf st with
+  | .bad => .error .error
+  | sc =>
+    if sc.lt 1 then .ok (.err .value) else
+    match countOf n with
+    | .bad => .error .error
+    | nc =>
+      if nc.lt 0 then .ok (.err .value) else
+      match t with
+      | .str s =>
+        (match sc, nc with
+         | .int a, .int b => .ok (.str (sliceTo (sliceFrom s (a - 1)) b))
+         | _, _ => .error .error)              -- a float index
+      | _ => .ok (.err .value)
+
+/-- MID(text, start_num, num_chars=1) -/
+def MID : Builtin
+  | [t, st] => midCore t st (.num (.int 1))
+  | [t, st, n] => midCore t st n
+  | _ => .error .error
+
+/-! ### TRIM -/
+
+/-- `re.sub(' {2,}', ' ', v)`: every maximal run of spaces becomes one space
+    (`prev` = the previous character was a space) -/
+def collapseSpaces (prev : Bool) : List Char → List Char
+  | [] => []
+  | c :: r =>
+    if c = ' ' then (if prev then collapseSpaces true r else ' ' :: collapseSpaces true r)
+    else c :: collapseSpaces false r
+
+def lstripSpaces (s : List Char) : List Char := s.dropWhile (· = ' ')
+
+/-- `.strip(' ')` -/
+def stripSpaces (s : List Char) : List Char := (lstripSpaces (lstripSpaces s).reverse).reverse
+
+def trim (s : List Char) : List Char := stripSpaces (collapseSpaces false s)
+
+/-- TRIM(value): a non-string is returned as it is -/
+def TRIM : Builtin
+  | [.str s] => .ok (.str (trim s))
+  | [v] => .ok v
+  | _ => .error .error
+
+/-! ### SUBSTITUTE -/
+
+/-- `text.replace(old, new)`: left to right, non-overlapping; `skip` = characters of the current
+    match still to be dropped.  (`old = ''` — never reached from SUBSTITUTE — inserts `new` before
+    every character and at the end.) -/
+def replaceGo (old new : List Char) : Nat → List Char → List Char
+  | _, [] => []
+  | skip + 1, _ :: r => replaceGo old new skip r
+  | 0, c :: r =>
+    if old.isPrefixOf (c :: r) then new ++ replaceGo old new (old.length - 1) r
+    else c :: replaceGo old new 0 r
+
+def pyReplace (s old new : List Char) : List Char :=
+  if old.isEmpty then new ++ s.flatMap (fun c => c :: new) else replaceGo old new 0 s
+
+/-- the `for i in range(len(text) - len_old + 1)` scan: the text with the `k`-th (k ≥ 1) start
+    position at which `old` occurs replaced; every start position is examined, so overlapping
+    occurrences are counted.  `none` = fewer than `k` occurrences. -/
+def kthScan (old new : List Char) : Nat → List Char → Option (List Char)
+  | _, [] => none
+  | k, c :: r =>
+    if old.isPrefixOf (c :: r) then
+      (if k ≤ 1 then some (new ++ (c :: r).drop old.length)
+       else (kthScan old new (k - 1) r).map (c :: ·))
+    else (kthScan old new k r).map (c :: ·)
+
+/-- `instance_num` as the occurrence number it can be equal to: a positive number that is not an
+    integer (1.5) equals no occurrence count -/
+def instanceNat? : Num → Option Nat
+  | .int i => some i.toNat
+  | .flt q => if q.den = 1 then some q.num.toNat else none
+
+/-- Python `instance_num <= 0` -/
+def numNonPos : Num → Bool
+  | .int i => i ≤ 0
+  | .flt q => q ≤ 0
+
+/-- does Python's `len(x)` work on the value?  `none` = the model has no opinion -/
+def hasLen? : Value → Option Bool
+  | .str _ => some true
+  | .arr _ => none
+  | .other _ => none
+  | _ => some false
+
+def substituteCore (text old new : Value) (inst : Option Num) : Except Err Value :=
+  if !pyTruthy text || !pyTruthy old || (match new with | .blank => true | _ => false) then .ok text else
+  match inst with
+  | none =>
+    (match text, old, new with
+     | .str s, .str o, .str n => .ok (.str (pyReplace s o n))
+     | .other _, _, _ => .ok noOpinion
+     | _, _, _ => .error .error)               -- AttributeError (no `.replace`) / TypeError
+  | some k =>
+    match hasLen? old, hasLen? text with
+    | some false, _ => .error .error           -- `len(old_text)` raises
+    | some true, some false => .error .error   -- `len(text)` raises
+    | some true, some true =>
+      (match text, old with
+       | .str s, .str o =>
+         (match instanceNat? k with
+          | none => .ok text
+          | some kn =>
+            match new with
+            | .str n => .ok (match kthScan o n kn s with | some r => .str r | none => text)
+            | _ =>
+              -- `text[0:i] + new_text` raises TypeError, but only if the k-th occurrence exists
+              (match kthScan o [] kn s with | some _ => .error .error | none => .ok text))
+       | _, _ => .ok noOpinion)
+    | _, _ => .ok noOpinion
+
+/-- SUBSTITUTE(text, old_text, new_text, instance_num=DEFAULT) -/
+def SUBSTITUTE : Builtin
+  | [t, o, n] => substituteCore t o n none
+  | [t, o, n, k] =>
+    match parseNumber k with
+    | .error e => .ok (.err e)
+    | .ok kn => if numNonPos kn then .ok (.err .value) else substituteCore t o n (some kn)
+  | _ => .error .error
+
+def table : List (String × Builtin) :=
+  [("CHAR", CHAR), ("CODE", CODE), ("CLEAN", CLEAN), ("CONCAT", CONCATENATE), ("CONCATENATE", CONCATENATE),
+   ("LEN", LEN), ("LENB", LEN), ("LOWER", LOWER), ("UPPER", UPPER), ("PROPER", PROPER),
+   ("SUBSTITUTE", SUBSTITUTE), ("TEXTJOIN", TEXTJOIN), ("LEFT", LEFT), ("LEFTB", LEFT),
+   ("RIGHT", RIGHT), ("RIGHTB", RIGHT), ("MID", MID), ("MIDB", MID), ("TRIM", TRIM)]
 
 end HotXL.Fn.Text
